@@ -66,6 +66,41 @@ SHARE = {
 }
 
 
+SERDE_ARR = {
+    "name": "SERDE_ARRAY", "backend": "kani", "crate": "serde_arr", "use_repo_lock": True,
+    "raw": ["mod:fixed_arr"],
+    "harnesses": {
+        "hex_document_n1": {"group": "array_codec_hex", "function": "fixed_arr::BigArray::<[u8; N]>::deserialize (human-readable)", "repo_location": "src/helpers.rs", "complete": False,
+                            "obligation": "N = 1, every ASCII string of length 0..=4 as the document: Ok exactly for 2N hex digits, the value is their decoding; truncated / over-long / non-hex refused; no panic"},
+        "hex_document_n2": {"group": "array_codec_hex", "function": "fixed_arr::BigArray::<[u8; N]>::deserialize (human-readable)", "repo_location": "src/helpers.rs", "complete": False,
+                            "obligation": "N = 2, every ASCII string of length 0..=6 as the document: Ok exactly for 2N hex digits, the value is their decoding; truncated / over-long / non-hex refused; no panic"},
+        "binary_document_n2": {"group": "array_codec_binary", "function": "fixed_arr::BigArray::<[u8; N]>::deserialize (binary tuple)", "repo_location": "src/helpers.rs", "complete": False,
+                               "obligation": "N = 2, every buffer of 0..=4 bytes: Ok exactly when N bytes are there, exactly N consumed, value = those bytes in order; a sequence that ends early is refused; no panic"},
+        "binary_document_n49": {"group": "array_codec_binary", "function": "fixed_arr::BigArray::<[u8; N]>::deserialize (binary tuple)", "repo_location": "src/helpers.rs", "tier": "thorough",
+                                "obligation": "the same at the real size N = 49 (G1 point share), buffers of 0..=51 bytes"},
+        "round_trip_hex_n1": {"group": "array_codec_round_trip", "function": "fixed_arr::BigArray::<[u8; N]>::{serialize, deserialize}", "repo_location": "src/helpers.rs", "complete": False,
+                              "obligation": "N = 1: the human-readable form is one string of 2N characters and decodes to the array it came from (all 256 values)"},
+        "round_trip_binary_n3": {"group": "array_codec_round_trip", "function": "fixed_arr::BigArray::<[u8; N]>::{serialize, deserialize}", "repo_location": "src/helpers.rs", "complete": False,
+                                 "obligation": "N = 3: the binary form is a tuple of exactly N bytes and decodes to the array it came from"},
+    },
+    "bound_note": "BOUNDED stand-in: the codec is const-generic in N and is checked at N = 1, 2, 3 (and at the real size 49 for the binary form in the thorough tier) over every document up to N+2 bytes / 2N+2 characters; the real sizes are 33, 49 and 97. The serde front ends are the two small drivers of kani/serde_arr/src/lib.rs (one string; a tuple of bytes read from a buffer), not serde_json / serde_bare themselves.",
+    "trusted": ["Kani 0.68 / CBMC 6.11", "the `hex` and `serde` crates at the versions of /repo/Cargo.lock are executed symbolically, not assumed"],
+}
+
+
+def serde_arr(*relevant):
+    d = dict(SERDE_ARR)
+    d["relevant"] = list(relevant)
+    return d
+
+
+# which failed checks of the array codec matter to which property: C15 the well-formed document decodes to the
+# value and the round trip; C16 everything else is refused (and what is accepted is the decoding); C17 no panic
+SERDE_ARR_C15 = serde_arr("must be accepted", "must decode", "the value is", "decode(encode", "form is", "consumed", "is_ok()")
+SERDE_ARR_C16 = serde_arr("must be refused", "is refused", "the value is", "consumed")
+SERDE_ARR_C17 = serde_arr("overflow", "index out of bounds", "panic", "unwrap", "out of range", "attempt to", "dereference", "unreachable")
+
+
 def leaf(*relevant):
     d = dict(LEAF)
     d["relevant"] = list(relevant)
@@ -119,7 +154,7 @@ PROPS = {
         "hypotheses": [X_NONID, "X-INJ (explicit): another message hashes to another point", "the accumulated key is not the identity (explicit requires; otherwise C04 applies)"],
     },
     "C03": {
-        "units": [gen("C03"),
+        "units": [gen("C03", props=["lib_sums.rs", "C03.rs"]),
                   {"name": "IMPL", "backend": "verus", "props": ["C03_impl.rs"], "tags": ["C03"], "specs": "contracts_impl", "prelude": "impl"}],
         "trusted_base": TB_ALGEBRA + ["H-HKDF: HKDF extract/expand are uninterpreted functions of their exact inputs", "A-H2C: hash_to_curve(expander, msg, tag) is an uninterpreted function; the expander type is one of its arguments",
                                       "the primitives themselves (SSWU map, expand_message_xmd, HKDF, SHA-256, compressed encoding) are NOT verified: byte-exactness of outputs is conditional on them"],
@@ -170,23 +205,23 @@ PROPS = {
         "not_decided": ["the guards of an honest proof (ciphertext components, responses and challenge non-zero) hold except with negligible probability: explicit hypothesis of c14_honest_proof_verifies", "that t of n scalar shares recombine to the key (L-LAGRANGE, vsss-rs) is a hypothesis of c14_key_from_shares_decrypts"],
     },
     "C15": {
-        "units": [LEAF_FUNCTIONAL_BOTH, dict(gen("C15", props=["lib_bytes.rs", "C15.rs"]), text_forms="round_trip")],
+        "units": [LEAF_FUNCTIONAL_BOTH, SERDE_ARR_C15, dict(gen("C15", props=["lib_bytes.rs", "C15.rs"]), text_forms="round_trip")],
         "trusted_base": TB_ALGEBRA + ["A-ENC / scalar_le: to_repr/from_repr are inverse on canonical encodings; the all-zero encoding is exactly the zero scalar",
                                       "L-SERDE: serde derive expansions, serde_bare, serde_json, hex and the curve crates' (de)serializers are NOT verified"],
         "hypotheses": [],
         "not_decided": ["that the serde_bare encodings themselves are lossless is ASSUMED (L-SERDE: one uninterpreted encoding per type with decode(encode(v)) == v); proved on top of it: every byte-form wrapper hands the whole value to the encoder and returns what the decoder yields, the scheme tag <-> variant maps, the length guards", "serde_json / human-readable forms and the macro-generated Vec / Box conversions (one-line delegations)"],
     },
     "C16": {
-        "units": [LEAF_ZERO_DETECTED, gen("C16", props=["lib_bytes.rs", "C16.rs"])],
+        "units": [LEAF_ZERO_DETECTED, SERDE_ARR_C16, gen("C16", props=["lib_bytes.rs", "C16.rs"])],
         "trusted_base": TB_ALGEBRA + ["A-ENC: from_bytes (checked decoder) is Some exactly for the encoding of a subgroup point", "L-SERDE (see C15)"],
         "hypotheses": [],
-        "not_decided": ["serde-derived decoders and the curve crates' parsers (truncation handling of serde_bare, JSON)"],
+        "not_decided": ["serde-derived decoders and the curve crates' parsers (truncation handling of serde_bare, JSON); blsful's own array codec behind the share containers is checked by Kani (unit SERDE_ARRAY, bounded sizes)"],
     },
     "C17": {
         "safety": True,
         # the checked (debug-assertion) build view of the payload decryption paths
         "thorough_units": [dict(gen("C17", props=["C17_debug.rs"]), view="debug", tags=["C17D"], needs_witness=True)],
-        "units": [leaf("overflow", "index out of bounds", "panic", "unwrap", "out of range", "attempt to"), ZIGZAG, gen("C17", props=["lib_bytes.rs", "C17.rs"])],
+        "units": [leaf("overflow", "index out of bounds", "panic", "unwrap", "out of range", "attempt to"), ZIGZAG, SERDE_ARR_C17, gen("C17", props=["lib_bytes.rs", "C17.rs"])],
         "trusted_base": TB_ALGEBRA + ["A-TIME (see C10)", "L-SERDE: serde / serde_bare / serde_json decoders and the curve crates' parsers are not verified"],
         "hypotheses": [],
         "not_decided": ["serde-derived decoders (serde_bare / serde_json) and the curve crates' own parsers", "termination of the two probabilistic retry loops (zero scalar re-draw)"],
